@@ -22,7 +22,7 @@ import (
 type C19Job struct {
 	Name string `json:"name"`
 	Size int    `json:"size"`
-	PP   string `json:"pp,omitempty"` // "" ok | "fail" | "failkeep" (returns content and error)
+	PP   string `json:"pp,omitempty"` // "" ok | "fail" | "failkeep" (returns content and error) | "panic" (the post-processor panics on this file)
 }
 
 type C19Work struct {
@@ -107,6 +107,11 @@ func (c19Driver) Gen(seed uint64, tier string) *simrt.Spec {
 		if j.PP == "fail" && r.Chance(1, 4) {
 			j.PP = "failkeep"
 		}
+		if j.PP == "fail" && failMode == 2 && r.Chance(1, 5) {
+			// a post-processor that panics on this file: the process may die of it (that is no success
+			// report), or Persist may turn it into an error; it must not return nil
+			j.PP = "panic"
+		}
 		w.Jobs = append(w.Jobs, j)
 	}
 	if r.Chance(1, 25) && n > 0 {
@@ -176,12 +181,13 @@ func (c19Driver) Gen(seed uint64, tier string) *simrt.Spec {
 }
 
 type c19Backend struct {
-	w       *C19Work
-	byPath  map[string]int // resolved path -> job index
-	ppCalls map[string]int
-	ppFails int
-	ppLive  int
-	log     []string
+	w        *C19Work
+	byPath   map[string]int // resolved path -> job index
+	ppCalls  map[string]int
+	ppFails  int
+	ppPanics int
+	ppLive   int
+	log      []string
 }
 
 func (b *c19Backend) Name() string                              { return "sim" }
@@ -232,6 +238,12 @@ func (b *c19Backend) PostProcess(path string, content []byte) ([]byte, error) {
 			simrt.Hit("fault.pp")
 			simrt.Log("pp.fail", path)
 			return content, errors.New("post-process failed for " + path)
+		case "panic":
+			b.ppFails++
+			b.ppPanics++
+			simrt.Hit("fault.pp-panic")
+			simrt.Log("pp.panic", path)
+			panic("c19: the post-processor panics on " + path)
 		}
 	}
 	out := append([]byte(in), c19Trailer(path)...)
@@ -405,6 +417,11 @@ func (c19Driver) Run(spec *simrt.Spec, agg *Agg, keep bool) *Outcome {
 		return fail("deadlock", "%s: %s", res.ExitHow, res.Verdict)
 	}
 	if res.ExitHow == "panic" {
+		if be.ppPanics > 0 && strings.Contains(res.Panic, "c19: the post-processor panics on ") {
+			// the injected panic took the process down: the caller is not told "success"
+			simrt.Hit("pp-panic.process-died")
+			return o
+		}
 		return fail("panic", "%s", firstLines(res.Panic, 12))
 	}
 	if !returned {
